@@ -1,5 +1,6 @@
 import ALock.Lemmas.Mutex
 import ALock.Lemmas.AtomicMutex
+import ALock.Lemmas.AtomTrace
 
 /-!
 # C01 — Mutex: at most one holder (and release happens-before the next acquire)
@@ -138,3 +139,29 @@ example :
     s.done = [1, 0] ∧ (s.ags.map (·.view)) = [[0], [1, 0]] ∧ s.st = 3 := by decide
 
 end ALock.Atomic.Mutex
+
+/-! ## Part 3 — a poll is a sequence of atomic operations -/
+
+namespace ALock
+
+/-- **C01 (the poll-granular step is what its atomic operations do).** For every branch of
+`lockPoll`, the operations listed by `lockAtoms` — which the differential run compares, after every
+operation, with the log of atomic operations the real crate performed (operands, `Ordering`s and
+returned values included) — are consistent (each sees the value its predecessor left, a CAS
+succeeds exactly when it finds the expected value) and produce the model's new state word. -/
+theorem C01_poll_atoms (c : Core) (l : LockSt) (f t : Nat) (fire : Bool) :
+    Atom.consistent c.st (lockAtoms c l f t fire) = true ∧
+    Atom.run c.st (lockAtoms c l f t fire) = (lockPoll c l f t fire).c.st :=
+  lockPoll_atoms_word c l f t fire
+
+/-- the same for `unlock` and `try_lock` -/
+theorem C01_unlock_atoms (c : Core) :
+    Atom.consistent c.st (unlockAtoms c) = true ∧ Atom.run c.st (unlockAtoms c) = c.unlock.st := by
+  simp [unlockAtoms, Atom.consistent, Atom.run, Core.unlock]
+
+theorem C01_try_lock_atoms (c : Core) :
+    Atom.consistent c.st (tryLockAtoms c) = true ∧ Atom.run c.st (tryLockAtoms c) = c.tryLock.1.st := by
+  simp only [tryLockAtoms, Atom.consistent, Atom.run, cas01_ok, cas01_apply, Core.tryLock, Bool.and_true]
+  split <;> simp_all
+
+end ALock
